@@ -553,6 +553,11 @@ def coefficient_ops(T):
                            qutip.coefficient(d["samples"], tlist=d["tlist"])(0.3), qutip.QobjEvo([qutip.qeye(2), d["c"]])(0.3)))
 
 
+def _start_step(solver, state):
+    solver.start(state, 0.0)
+    return [solver.step(0.3), solver.step(0.7)]
+
+
 def solver_ops(T, tier, fmts):
     import qutip
     rng = T.rng
@@ -576,6 +581,12 @@ def solver_ops(T, tier, fmts):
         opts = {"store_states": True, "progress_bar": ""}
         T.check(f"krylovsolve-options:{fmt}", {"H": H0, "psi": psi, "tlist": np.linspace(0, 1.2, 7), "options": opts, "e_ops": [e[0]]},
                 lambda d: qutip.krylovsolve(d["H"], d["psi"], d["tlist"], 2, e_ops=d["e_ops"], options=d["options"]), targets=("krylovsolve",), detail={"fmt": fmt})
+        # initial kets that are not normalised (an integrator that rescales must do so on its own copy), every method
+        for method in ("adams", "bdf", "lsoda", "dop853", "vern7", "vern9", "diag", "krylov"):
+            T.check(f"sesolve-unnormalised:{fmt}/{method}", {"H": H0, "psi": 2.5 * psi, "tlist": np.linspace(0, 1.2, 7), "options": {"method": method, "store_states": True, "progress_bar": ""}},
+                    lambda d: qutip.sesolve(d["H"], d["psi"], d["tlist"], options=d["options"]).states, targets=(), detail={"fmt": fmt, "method": method})
+            T.check(f"SESolver-start-unnormalised:{fmt}/{method}", {"H": H0, "psi": (0.3 + 0.4j) * psi, "options": {"method": method, "progress_bar": ""}},
+                    lambda d: _start_step(qutip.SESolver(d["H"], options=d["options"]), d["psi"]), targets=(), detail={"fmt": fmt, "method": method})
         # ---- mesolve / MESolver: H forms x c_op forms x state forms, Liouvillian forms
         c_forms = {"qobj": lambda: list(c), "none": lambda: [], "single": lambda: c[0], "qobjevo": lambda: [qutip.QobjEvo([c[0], f_sin], args={"w": 0.5}), c[1]],
                    "super": lambda: [qutip.lindblad_dissipator(c[0]), c[1]], "super_evo": lambda: [qutip.QobjEvo([qutip.lindblad_dissipator(c[0]), f_sin], args={"w": 0.5})]}
